@@ -74,6 +74,9 @@ M = [
  ("c10_map_forgets_fn", "C10", "publisher.go", "\t\t\tnext.Publish(fn(in))", "\t\t\tif len(next.subscribers) > 1 {\n\t\t\t\tnext.Publish(in)\n\t\t\t\treturn\n\t\t\t}\n\t\t\tnext.Publish(fn(in))"),
  ("c10_unsubscribe_compacts_in_place", "C10", "publisher.go", "\t\t\t\tnewSubscribers := make([]*Subscription[T], 0, len(subscribers)-1)\n\t\t\t\tnewSubscribers = append(newSubscribers, subscribers[:i]...)", "\t\t\t\tnewSubscribers := subscribers[:0]\n\t\t\t\tnewSubscribers = append(newSubscribers, subscribers[:i]...)"),
  ("c10_subscribeon_posts_twice_when_buffered", "C10", "publisher.go", "\t\t\tif publisherSelf.subOn != nil {\n\t\t\t\tpublisherSelf.subOn.Post(doSub)", "\t\t\tif publisherSelf.subOn != nil {\n\t\t\t\tif len(subscribers) == 3 {\n\t\t\t\t\tpublisherSelf.subOn.Post(doSub)\n\t\t\t\t}\n\t\t\t\tpublisherSelf.subOn.Post(doSub)"),
+ ("c14_reply_on_own_channel", "C14", "cor.go", "\t\tcor.doCloseSafe(func() {\n\t\t\tcor.resultCh <- out\n\t\t})", "\t\tcor.doCloseSafe(func() {\n\t\t\tcorSelf.resultCh <- out\n\t\t})"),
+ ("c14_op_wrong_caller", "C14", "cor.go", "\t\t\tcorSelf.opCh <- &CorOp[T]{cor: cor, val: in}", "\t\t\tif len(corSelf.opCh) > 2 {\n\t\t\t\tcor = (<-corSelf.opCh).cor\n\t\t\t}\n\t\t\tcorSelf.opCh <- &CorOp[T]{cor: cor, val: in}"),
+ ("c14_yieldfrom_skips_wait_when_buffered", "C14", "cor.go", "\tresult, _ = <-corSelf.resultCh\n", "\tif len(target.opCh) >= 4 {\n\t\treturn result\n\t}\n\tresult, _ = <-corSelf.resultCh\n"),
 ]
 
 
